@@ -23,7 +23,7 @@ RULE = (
     "per configuration (limit 1..4 x catching {default,class,tuple,set} x delay {None,int,float,"
     "function} x sync/async x inside/outside a scope) every reachable sequence of call outcomes "
     "over {value, caught, subclass of caught (one and two levels), uncaught Exception, CancelledError, other "
-    "BaseException}; non-trivial = at least one retry happened or a non-retryable error ended it"
+    "BaseException}; plus ONE wrapper used 2-3 times in a row (every outcome sequence per use over {value, caught, subclass, uncaught}, delay function depending on the exception); non-trivial = at least one retry happened or a non-retryable error ended it"
 )
 ASSUMPTIONS = [
     "virtual time.sleep / asyncio.sleep (exact dyadic delays); the wrapped call itself takes no time",
@@ -85,6 +85,7 @@ def programs(tier: str):
                         }
 
 
+    yield from _reuse_programs(tier)
     # two overlapping calls through one async wrapper: each has its own attempt budget
     for limit in BOUNDS[tier]["limits"][:2]:
         for a in itertools.product(("caught", "value"), repeat=limit + 1):
@@ -94,6 +95,131 @@ def programs(tier: str):
 
 def explore_config(tier: str, program) -> dict:
     return {}
+
+
+REUSE_OUTCOMES = ["value", "caught", "subcaught", "other"]
+
+
+def _reuse_programs(tier: str):
+    # ONE wrapper used several times in a row: every use has its own attempt budget, its own
+    # delays (the delay function depends on the exception) and reports its own last outcome
+    for mode in ("sync", "async"):
+        for delay in ("none", "fn", "float"):
+            for limit in (1, 2):
+                uses = 3 if (limit == 1 or tier == "thorough") else 2
+                yield {"reuse": True, "mode": mode, "delay": delay, "limit": limit, "uses": uses}
+
+
+def _reuse(program, ch: Chooser) -> Result:  # noqa: C901, PLR0912, PLR0915
+    mode, delay, limit, uses = program["mode"], program["delay"], program["limit"], program["uses"]
+    vtime.reset()
+    viols: list[dict] = []
+    per_use: list[list[dict]] = []
+    delay_calls: list[tuple] = []
+    outs: list = []
+
+    def decide():
+        calls = per_use[-1]
+        k = len(calls) + 1
+        kind = "value" if k > limit + 2 else REUSE_OUTCOMES[ch.choose(len(REUSE_OUTCOMES), "outcome")]
+        rec = {"t": vtime.now(), "kind": kind}
+        calls.append(rec)
+        if kind == "value":
+            rec["val"] = object()
+            return rec["val"]
+        rec["exc"] = _make_exc(kind, k)
+        raise rec["exc"]
+
+    def delay_fn(attempt, exc):
+        delay_calls.append((len(per_use) - 1, attempt, exc))
+        return 0.25 * attempt + (0.5 if isinstance(exc, SubCaught) else 0.0)
+
+    kwargs: dict = {"limit": limit, "catching": Caught}
+    if delay == "fn":
+        kwargs["delay"] = delay_fn
+    elif delay == "float":
+        kwargs["delay"] = 0.5
+    loop = VLoop()
+    loop.open()
+    try:
+        if mode == "sync":
+
+            @retry(**kwargs)
+            def fn():
+                return decide()
+
+            for _ in range(uses):
+                per_use.append([])
+                try:
+                    outs.append(("value", fn()))
+                except BaseException as exc:  # noqa: BLE001
+                    outs.append(("raised", exc))
+        else:
+
+            @retry(**kwargs)
+            async def afn():
+                return decide()
+
+            async def main():
+                for _ in range(uses):
+                    per_use.append([])
+                    try:
+                        outs.append(("value", await afn()))
+                    except BaseException as exc:  # noqa: BLE001
+                        outs.append(("raised", exc))
+
+            task = loop.create_task(main())
+            for _ in range(200):
+                loop.run_ready()
+                if task.done():
+                    break
+                grp = loop.due_group()
+                if not grp:
+                    break
+                loop.fire(grp[0])
+            if not task.done():
+                viols.append(viol("termination", f"reuse/{mode}", "calls return", "pending"))
+        retried = 0
+        for u, calls in enumerate(per_use):
+            if u >= len(outs):
+                break
+            exp = 0
+            terminal = False
+            for rec in calls:
+                exp += 1
+                if rec["kind"] not in ("caught", "subcaught") or exp == limit + 1:
+                    terminal = True
+                    break
+            kinds = [c["kind"] for c in calls]
+            w = f"use{u + 1}-of-{uses}/limit={limit}"
+            if not terminal:
+                viols.append(viol("attempts", f"reuse/too-few/{w}", f"another call after outcomes {kinds}", f"stopped after {len(calls)} calls", earlier=[[c["kind"] for c in cs] for cs in per_use[:u]]))
+                continue
+            if len(calls) != exp:
+                viols.append(viol("attempts", f"reuse/{'too-few' if len(calls) < exp else 'too-many'}/{w}", f"{exp} calls for outcomes {kinds[:exp]}", f"{len(calls)} calls {kinds}", earlier=[[c["kind"] for c in cs] for cs in per_use[:u]]))
+                continue
+            final = calls[-1]
+            ok = (outs[u][0] == "value" and outs[u][1] is final.get("val")) if final["kind"] == "value" else (outs[u][0] == "raised" and outs[u][1] is final.get("exc"))
+            if not ok:
+                viols.append(viol("last-outcome", f"reuse/{w}", f"the outcome of this use's call {len(calls)}", [outs[u][0], type(outs[u][1]).__name__]))
+            retries = len(calls) - 1
+            retried += retries
+            want_p = []
+            for k in range(1, retries + 1):
+                e = calls[k - 1].get("exc")
+                want_p.append({"none": 0.0, "float": 0.5, "fn": 0.25 * k + (0.5 if isinstance(e, SubCaught) else 0.0)}[delay])
+            deltas = [calls[i + 1]["t"] - calls[i]["t"] for i in range(retries)]
+            if deltas != want_p:
+                viols.append(viol("delay", f"reuse/{delay}/{mode}/{w}", want_p, deltas, earlier=[[c["kind"] for c in cs] for cs in per_use[:u]]))
+            if delay == "fn":
+                mine = [(a, e) for uu, a, e in delay_calls if uu == u]
+                want = [(k, calls[k - 1].get("exc")) for k in range(1, retries + 1)]
+                if len(mine) != len(want) or any(a[0] != b[0] or a[1] is not b[1] for a, b in zip(mine, want)):
+                    viols.append(viol("delay", f"reuse/fn-arguments/{w}", [(k, repr(e)) for k, e in want], [(k, repr(e)) for k, e in mine]))
+        obs = {"kinds": [[c["kind"] for c in cs] for cs in per_use], "outs": [o[0] for o in outs]}
+        return Result(f"reuse/{mode}/uses={len(outs)}/retried={min(retried, 3)}", retried > 0 and len(outs) > 1, viols, obs)
+    finally:
+        loop.shutdown()
 
 
 def _concurrent(program, ch: Chooser) -> Result:
@@ -170,6 +296,8 @@ def _make_exc(kind: str, k: int) -> BaseException:
 def execute(program, ch: Chooser) -> Result:  # noqa: C901, PLR0912, PLR0915
     if program.get("concurrent"):
         return _concurrent(program, ch)
+    if program.get("reuse"):
+        return _reuse(program, ch)
     limit, catching, delay, mode, scoped = (
         program["limit"],
         program["catching"],
